@@ -251,7 +251,11 @@ pub fn gen_request(rng: &mut Rng, cfg: &GenCfg, tag: &str) -> GenReq {
 pub fn gen_header_line(rng: &mut Rng, cfg: &GenCfg) -> Vec<u8> {
     let fatal = rng.chance(cfg.fatal_hdr, 1000);
     if fatal {
-        let l: Vec<u8> = match rng.below(9) {
+        let l: Vec<u8> = match rng.below(12) {
+            // a line of white space only is a line without a colon, not the end of the header block
+            9 => b" ".to_vec(),
+            10 => b"\t \t".to_vec(),
+            11 => "\u{3000}".as_bytes().to_vec(),
             0 => b"NoColonHere".to_vec(),
             1 => b"X-Bad: \xff\xfe".to_vec(),
             2 => b"Content-Length: abc".to_vec(),
@@ -348,7 +352,12 @@ pub fn corrupt(rng: &mut Rng, r: &mut GenReq, which: usize) {
         }
         13 => {
             let at = rng.below(r.headers.len() + 1);
-            r.headers.insert(at, (b"MissingColon".to_vec(), b"\r\n".to_vec()));
+            let l: &[u8] = match rng.below(4) {
+                0 => b" ",
+                1 => b"\t",
+                _ => b"MissingColon",
+            };
+            r.headers.insert(at, (l.to_vec(), b"\r\n".to_vec()));
         }
         14 => {
             let at = rng.below(r.headers.len() + 1);
